@@ -311,14 +311,16 @@ class PointLikeTensor(ProjectiveTensor, ABC):
         if not is_numerical_scalar(other):
             return super().__mul__(other)
         result = self.normalized_array[..., :-1] * other
-        result = np.append(result, self.array[..., -1:] != 0, axis=-1)
+        # a point is at infinity when its last coordinate vanishes up to the tolerance used by isinf and normalized_array
+        result = np.append(result, ~np.isclose(self.array[..., -1:], 0, atol=EQ_TOL_ABS), axis=-1)
         return PointCollection.from_array(result)
 
     def __truediv__(self, other: Tensor | npt.ArrayLike) -> Tensor:
         if not is_numerical_scalar(other):
             return super().__truediv__(other)
         result = self.normalized_array[..., :-1] / other
-        result = np.append(result, self.array[..., -1:] != 0, axis=-1)
+        # a point is at infinity when its last coordinate vanishes up to the tolerance used by isinf and normalized_array
+        result = np.append(result, ~np.isclose(self.array[..., -1:], 0, atol=EQ_TOL_ABS), axis=-1)
         return PointCollection.from_array(result)
 
 
